@@ -126,6 +126,10 @@ class KernelModel:
             if e.get('k') == 'Block' and e.get('unsafe') and not e.get('stmts') and 'expr' in e:
                 e = peel(e['expr'])
                 continue
+            if e.get('k') == 'Call' and e.get('callee_res', '').startswith('Ctor') and \
+                    strip_generics(e.get('callee', '')).endswith('Some') and len(e['ch']) == 2:
+                e = peel(e['ch'][1])
+                continue
             break
         if e.get('k') == 'Path' and e.get('res') == 'local':
             return self.tags.get(e['local'])
@@ -191,7 +195,9 @@ class KernelModel:
                     ch = True
             return ch
         if k == 'Binding':
-            t = self.tag_of(init) or self.idx_tag(init)
+            t = self.idx_tag(init)
+            if t not in ('OLDIDX', 'END'):
+                t = self.tag_of(init) or t
             if t and self.tags.get(pat['local']) != t and t not in ('OLDOPT', 'OLDIDXOPT'):
                 self.tags[pat['local']] = t
                 ch = True
